@@ -205,7 +205,7 @@ Load(P) ==
       lname(a) == StrOf(P, code[a].a)
       lnames == {lname(a) : a \in lsites}
       \* duplicate label names: the last definition wins (HashMap collect)
-      labels == [nm \in lnames |-> (CHOOSE a \in lsites : lname(a) = nm /\ \A a2 \in lsites : lname(a2) = nm => a2 <= a) - 1]
+      labels == [nm \in lnames |-> LET hits == {a \in lsites : lname(a) = nm} IN (CHOOSE a \in hits : \A a2 \in hits : a2 <= a) - 1]
       gset == {P.globals[i] : i \in 1..Len(P.globals)}
       globalsOK == \A g \in gset : IsKind(P, g, {"slot", "method"})
       slotg == {g \in gset : CAt(P, g).k = "slot"}
